@@ -406,6 +406,14 @@ class CE:
         elif t in (ast.Import, ast.ImportFrom):
             for a in st.names:
                 env[a.asname or a.name.split(".")[0]] = ExtName((getattr(st, "module", None) or "") + "." + a.name if t is ast.ImportFrom else a.name)
+        elif t is ast.Match:
+            subject = self.ev(st.subject, env, f)
+            for case in st.cases:
+                b = self.match_pattern(case.pattern, subject, env, f)
+                if b is not None and (case.guard is None or self.truth(self.ev(case.guard, dict(env, **b), f))):
+                    env.update(b)
+                    self.block(case.body, env, f)
+                    break
         elif t is ast.FunctionDef:
             for g in f.module.all_funcs:
                 if g.node is st:
@@ -414,6 +422,39 @@ class CE:
             raise Unsupported(f"nested def {st.name}")
         else:
             raise Unsupported(f"statement {t.__name__} at {pyfacts.where(f, st)}")
+
+    def match_pattern(self, pat, v, env, f):
+        """bindings dict if the pattern matches, else None (value / literal / wildcard / capture / or / sequence patterns)"""
+        if isinstance(pat, ast.MatchValue):
+            return {} if self.ev(pat.value, env, f) == v else None
+        if isinstance(pat, ast.MatchSingleton):
+            return {} if v is pat.value else None
+        if isinstance(pat, ast.MatchAs):
+            if pat.pattern is None:
+                return {pat.name: v} if pat.name else {}
+            b = self.match_pattern(pat.pattern, v, env, f)
+            if b is None:
+                return None
+            if pat.name:
+                b[pat.name] = v
+            return b
+        if isinstance(pat, ast.MatchOr):
+            for p in pat.patterns:
+                b = self.match_pattern(p, v, env, f)
+                if b is not None:
+                    return b
+            return None
+        if isinstance(pat, ast.MatchSequence):
+            if not isinstance(v, (list, tuple)) or len(v) != len(pat.patterns) or any(isinstance(p, ast.MatchStar) for p in pat.patterns):
+                return None
+            out = {}
+            for p, x in zip(pat.patterns, v):
+                b = self.match_pattern(p, x, env, f)
+                if b is None:
+                    return None
+                out.update(b)
+            return out
+        raise Unsupported(f"match pattern {type(pat).__name__}")
 
     def assign(self, tg, v, env, f):
         if isinstance(tg, ast.Name):
@@ -628,6 +669,8 @@ class CE:
             if isinstance(op, ast.Eq) and isinstance(a, Mat) and isinstance(b, Mat):
                 raise Unsupported("elementwise matrix comparison")
             raise Unsupported("matrix comparison")
+        if isinstance(op, (ast.Is, ast.IsNot)) and isinstance(a, ExtName) and isinstance(b, ExtName):
+            return (a == b) == isinstance(op, ast.Is)
         fn = CMPOPS.get(type(op))
         try:
             return fn(a, b)
@@ -716,6 +759,10 @@ class CE:
         if isinstance(fn, BoundRepo):
             if isinstance(fn.inst, pyfacts.Class):
                 return self.call_func(fn.func, ([fn.inst] if fn.func.is_classmethod else []) + args, kwargs)
+            if fn.func.is_static:
+                return self.call_func(fn.func, args, kwargs)
+            if fn.func.is_classmethod:
+                return self.call_func(fn.func, [fn.inst.cls] + args, kwargs)
             return self.call_func(fn.func, [fn.inst] + args, kwargs)
         if isinstance(fn, pyfacts.Class):
             inst = Instance(fn)
@@ -796,6 +843,8 @@ class CE:
             flat = m.flat()
             if len(shape) == 1 or isinstance(shape, int):
                 return Mat(flat, 1)
+            if len(shape) != 2:
+                raise Unsupported(f"reshape to {len(shape)} dimensions")
             r, c = shape
             return Mat([flat[i * c:(i + 1) * c] for i in range(r)], 2)
         raise Unsupported(f"matrix method {name}")
@@ -809,6 +858,13 @@ class CE:
                     "print": lambda *a, **k: None, "next": next, "iter": iter, "format": format, "bin": bin, "divmod": divmod}
             if name == "isinstance":
                 return self.isinstance(args[0], e.args[1], f)
+            if name == "type" and len(args) == 1:
+                v = args[0]
+                if isinstance(v, Instance):
+                    return v.cls
+                if isinstance(v, Mat):
+                    return ExtName("numpy.ndarray")
+                return ExtName("builtins." + type(v).__name__)
             if name == "len" and isinstance(args[0], Mat):
                 return len(args[0].d)
             if name in ("list", "tuple", "sum", "any", "all", "sorted", "min", "max", "enumerate", "zip", "reversed", "set") and args and isinstance(args[0], (Mat, RowView)):
@@ -848,6 +904,8 @@ class CE:
             return self.prog.tree.read(rel)
         if name == "QuantumCircuit":
             return Recorder(args[0] if args else None)
+        if len(dotted.split(".")) >= 2 and dotted.split(".")[-2] == "QuantumCircuit" and args and isinstance(args[0], Recorder):
+            return self.apply(("recmethod", args[0], name), list(args[1:]), kwargs, e, f)
         if dotted in ("copy.deepcopy", "copy.copy"):
             o = args[0]
             return o.copy() if isinstance(o, Mat) else (Mat(list(o.row()), 1) if isinstance(o, RowView) else __import__("copy").deepcopy(o))
@@ -890,6 +948,11 @@ class CE:
         if name == "count_nonzero":
             a = args[0]
             return sum(1 for x in (a.flat() if isinstance(a, Mat) else self.iterate(a)) if x)
+        if name == "fill_diagonal":
+            m, v = args[0], args[1]
+            for i in range(min(m.shape)):
+                m.d[i][i] = _scalar(v)
+            return None
         if name == "outer":
             a, b = args
             av = a.flat() if isinstance(a, Mat) else list(self.iterate(a))
